@@ -193,6 +193,29 @@ func (p *Prog) resolvedBuiltinNames(rs relSet) []string {
 			}
 		}
 	}
+	// third shape: the identifier was resolved once (R(ctx, id) == true) and its spelling is then compared:
+	// "name" == id.Name
+	for k := range rs {
+		i := topLevelIndex(k, " == ")
+		if i < 0 {
+			continue
+		}
+		a, b := k[:i], k[i+4:]
+		for _, pr := range [][2]string{{a, b}, {b, a}} {
+			lit, key := pr[0], pr[1]
+			if len(lit) < 2 || lit[0] != '"' || !strings.HasSuffix(key, ".Name") {
+				continue
+			}
+			id := strings.TrimSuffix(key, ".Name")
+			for _, pf := range prefixes {
+				for f := range rs {
+					if strings.HasPrefix(f, pf) && strings.HasSuffix(f, ","+id+") == true") || strings.HasPrefix(f, "true == "+pf) && strings.HasSuffix(f, ","+id+")") {
+						seen[lit[1:len(lit)-1]] = true
+					}
+				}
+			}
+		}
+	}
 	var out []string
 	for k := range seen {
 		out = append(out, k)
